@@ -52,6 +52,9 @@ def specs(tier, seed):
     add("GrandCanonical", "M1", [["e", "E_transrot"], ["d", "D_rot"]], "pairsoft")
     add("GrandCanonical", "M1", [["e", "E_transrot"]], "emt")
     add("GrandCanonical", "A0", [["e", "E_trans"]], "pairsoft", depth=3)
+    # one trial deleting one particle and inserting another: the composition changes at constant atom count
+    add("GrandCanonical", "AK", [["x", "G[E0_trans,E1_trans]", 1.0, "gc"], ["d", "D_ball"]], "pairsoft")
+    add("GrandCanonical", "AK", [["x", "G[E0_trans,E1_trans]", 1.0, "gc"]], "peratom")
     # state changed by the user between construction and the first run
     add("Canonical", "A3", [["d", "D_ball"]], "pairsoft", late=["shift"])
     add("Isobaric", "A3", [["c", "C_iso"], ["d", "D_ball"]], "pairsoft", late=["strain"])
